@@ -119,7 +119,7 @@ func vC39_gcounter() {
 		dl := vC38_gcPick(sch[i], nd, c)
 		if vC38_pickBool(sch[i], nd, p) {
 			var n [7]*GCounter
-			n[0] = dl // key absent: the delta itself becomes the stored value
+			n[0] = dl // key absent: the received value itself becomes the stored value
 			n[1] = cur.Merge(dl).(*GCounter)
 			k := 0
 			if present {
@@ -223,10 +223,10 @@ func vC39_pncounter() {
 			if present {
 				k = 1
 			}
-			var ni, nd [7]*GCounter
-			ni[0], nd[0] = dl.increments, dl.decrements
-			ni[1], nd[1] = m.increments, m.decrements
-			cur, present = &PNCounter{increments: vC38_gcPick(k, 2, ni), decrements: vC38_gcPick(k, 2, nd)}, true
+			var ni, nc [7]*GCounter
+			ni[0], nc[0] = dl.increments, dl.decrements
+			ni[1], nc[1] = m.increments, m.decrements
+			cur, present = &PNCounter{increments: vC38_gcPick(k, 2, ni), decrements: vC38_gcPick(k, 2, nc)}, true
 		}
 	}
 	if part == 0 {
@@ -308,7 +308,7 @@ func vC39_mvregister() {
 		dl := vC38_mvPick(sch[i], nd, c)
 		if vC38_pickBool(sch[i], nd, p) {
 			var n [7]*MVRegister
-			n[0] = dl
+			n[0] = dl // key absent: the received value itself becomes the stored value
 			n[1] = cur.Merge(dl).(*MVRegister)
 			k := 0
 			if present {
@@ -352,10 +352,10 @@ func vC39_osMergeIf(cond bool, cur, d *ORSet) *ORSet {
 	return vC38_osPick(k, 2, c)
 }
 
-// one or two operations out of {Add e1, Add e2, Remove e1, Remove e2}
+// vCase("ops") (1 or 2) operations, each nothing or one of {Add e1, Add e2, Remove e1, Remove e2}
 func vC39_osOps(cur *ORSet, node string) *ORSet {
 	u := cur
-	for stage := 0; stage < 2; stage++ {
+	for stage := 0; stage < vCase("ops"); stage++ {
 		var c [7]*ORSet
 		c[0] = u
 		c[1] = u.Add(node, vC38_elems[0])
@@ -464,10 +464,10 @@ func vC39_omMergeIf(cond bool, cur, d *ORMap) *ORMap {
 	return vC38_omPick(k, 2, c)
 }
 
-// one or two operations out of {Set k1, Set k2, Remove k1, Remove k2}; Set stores a counter incremented by the node
+// vCase("ops") (1 or 2) operations, each nothing or one of {Set k1, Set k2, Remove k1, Remove k2}; Set stores a counter incremented by the node
 func vC39_omUpdate(cur *ORMap, node string, removes bool) (*ORMap, *ORMap, bool) {
 	u := cur
-	for stage := 0; stage < 2; stage++ {
+	for stage := 0; stage < vCase("ops"); stage++ {
 		amount := vNondetUint64("inc")
 		vAssume(amount < 1<<60)
 		val := NewGCounter().Increment(node, amount)
@@ -519,7 +519,7 @@ func vC39_omRun(removes bool) {
 		dl := vC38_omPick(sch[i], nd, c)
 		if vC38_pickBool(sch[i], nd, p) {
 			var n [7]*ORMap
-			n[0] = dl
+			n[0] = dl // key absent: the received value itself becomes the stored value
 			n[1] = cur.Merge(dl).(*ORMap)
 			k := 0
 			if present {
@@ -527,6 +527,7 @@ func vC39_omRun(removes bool) {
 			}
 			cur, present = vC38_omPick(k, 2, n), true
 		}
+		cur = vC38_omNorm(cur) // one object again after the branch
 	}
 	if part == 0 {
 		vAssert(vC38_omObserve(cur) == ofull, "a replica that applied every delta (any order, duplicates) has the same keys and values as the merge of the originators' full states")
